@@ -1,7 +1,7 @@
 (** Per-run obligation of the append-overload checker (Model/H5Append.v) on the bodies generated from the sources of this
-    run (Gen/Gen_H5Append.v), and what `_appendData` itself does to the extent (Gen/Gen_H5Index.v). *)
+    run (Gen/Gen_H5Append.v). *)
 From Coq Require Import List ZArith String Bool.
-From Inovesa Require Import Base.FieldKit Model.Records Model.H5Slab Model.H5Append Gen.Gen_H5Append Gen.Gen_H5Index Proofs.H5AppendP.
+From Inovesa Require Import Base.FieldKit Model.Records Model.H5Append Gen.Gen_H5Append Proofs.H5AppendP.
 Import ListNotations.
 Local Open Scope Z_scope.
 
@@ -9,13 +9,6 @@ Lemma main_appends_checked :
   appends_ok gen_body_ps gen_body_ef gen_body_wake gen_body_tracks gen_body_padded gen_body_rfkicks = true.
 Proof. vm_compute. reflexivity. Qed.
 
-(** one `_appendData(ds, data, size)` call: the extent handed to extend() and ds.dims afterwards are the old extent with
-    [size] more records, the block written starts at the old end and holds [size] records; extend, getSpace, select, write
-    in this order *)
-Lemma append_data_grows_by_size (dims : list Z) (size : Z) :
-  gen_ad_extent dims size = (hd 0 dims + size) :: tl dims /\
-  gen_ad_dims_after dims size = (hd 0 dims + size) :: tl dims /\
-  hd 0 (gen_ad_start dims size) = hd 0 dims /\
-  hd 0 (gen_ad_count dims size) = size /\
-  gen_ad_order_ok = true.
-Proof. repeat split. Qed.
+(** the `_appendData` template is a straight line: extend once, then write once *)
+Lemma main_appenddata_checked : appenddata_ok gen_appenddata_shape = true.
+Proof. vm_compute. reflexivity. Qed.
